@@ -206,6 +206,23 @@ impl Prop for C11 {
         // uncompressed streams of round byte lengths through the temporary-file staging: N zoom records of
         // 32 bytes at the first automatic level (contiguous 10-base values, resolution 160), two chromosomes
         let mut v = vec![];
+        // values whose text differs although they compare equal (0.0 / -0.0), repeated values, extremes
+        {
+            let pattern = [0.0f32, -0.0, 0.0, 1.5, 1.5, -0.0, -0.0, 0.0, f32::MAX, f32::MAX, f32::MIN_POSITIVE, -f32::MIN_POSITIVE, 1e-40, -1e-40];
+            let chroms: Vec<BwChrom> = (0..3)
+                .map(|c| BwChrom {
+                    name: format!("chr{}", c + 1),
+                    size: 1000,
+                    vals: pattern.iter().cycle().skip(c).take(40).enumerate().map(|(i, x)| BwVal { s: i as u32 * 10, e: i as u32 * 10 + 10, v: *x }).collect(),
+                })
+                .collect();
+            v.push(Case {
+                base: Base::Bw(BwInput { chroms, unused: vec![] }),
+                fmt: Opts::default(),
+                variant: Variant { threads: 3, channel_size: 100, inmemory: false, source: SourceKind::SerialText, delay_seed: 0, intensity: 0, conv_threads: 4, conv_inmemory: true, bias_consumer: false },
+                cli: None,
+            });
+        }
         for n_records in [256u32, 2000, 2048, 4096] {
             for multipass in [false, true] {
                 let per_chrom = n_records * 8;
